@@ -151,6 +151,26 @@ pub fn digest_state(b: &[u8]) -> Option<Value> {
     Some(json!({"md5": md5, "sha1": sha1, "sha256": sha256, "payload": payload_st, "algo": algo}))
 }
 
+/// the same package with the index entries behind the region entry of the signature header (and, with `both`, of the
+/// main header) in reverse order: stores untouched, so every digest state is unchanged
+pub fn reorder_index(bytes: &[u8], both: bool) -> Option<Vec<u8>> {
+    let lay = rawhdr::layout(bytes)?;
+    let mut out = bytes.to_vec();
+    let mut hs = vec![&lay.sig];
+    if both { hs.push(&lay.hdr); }
+    for h in hs {
+        let n = h.entries.len();
+        if n < 3 { continue; }
+        let first = if h.entries[0].tag == 62 || h.entries[0].tag == 63 { 1 } else { 0 };
+        let blocks: Vec<Vec<u8>> = (first..n).map(|k| bytes[h.at + 16 + 16 * k..h.at + 32 + 16 * k].to_vec()).collect();
+        for (j, blk) in blocks.iter().rev().enumerate() {
+            let at = h.at + 16 + 16 * (first + j);
+            out[at..at + 16].copy_from_slice(blk);
+        }
+    }
+    Some(out)
+}
+
 fn verify(bytes: &[u8]) -> Option<String> {
     let p = match guarded(|| Package::parse(&mut &bytes[..])) {
         Ok(Ok(p)) => p,
@@ -177,6 +197,16 @@ pub fn run(args: &Args) {
                 Some(o) => t.emit(json!({"event":"Digest","origin":format!("table:{i}"),"d":derived,"case_d":c["d"],"pos":c["pos"],"outcome":o})),
                 None => t.emit(json!({"event":"ParseErr","origin":format!("table:{i}"),"case_d":c["d"]})),
             };
+            // the same row with the index entries in another order (a header need not be sorted to be read)
+            if c["pos"] == "first" || i % 3 == 0 {
+                if let Some(rb) = reorder_index(&bytes, false) {
+                    let d2 = digest_state(&rb).unwrap_or(json!(null));
+                    match verify(&rb) {
+                        Some(o) => t.emit(json!({"event":"Digest","origin":format!("table-reordered:{i}"),"d":d2,"case_d":c["d"],"pos":c["pos"],"outcome":o})),
+                        None => t.emit(json!({"event":"ParseErr","origin":format!("table-reordered:{i}"),"case_d":c["d"]})),
+                    };
+                }
+            }
         }
     }
     // single-bit flips on intact real packages
@@ -197,6 +227,10 @@ pub fn run(args: &Args) {
             carriers.push((format!("built{k}"), out));
         }
     }
+    // every carrier also with its index entries reordered
+    let more: Vec<(String, Vec<u8>)> = carriers.iter().filter(|(_, b)| b.len() < 30000)
+        .filter_map(|(n, b)| reorder_index(b, false).map(|r| (format!("{n}-reordered"), r))).collect();
+    carriers.extend(more);
     let nflips = args.num("flips", 1500) as usize;
     for (name, base) in &carriers {
         let Some(lay) = rawhdr::layout(base) else { continue };
